@@ -648,6 +648,10 @@ func grpcErrorFromTrailer(bufferPool *bufferPool, protobuf Codec, trailer http.H
 	if err != nil {
 		return errorf(CodeInternal, "gRPC protocol error: invalid error code %q", codeHeader)
 	}
+	if code == 0 {
+		// The status is 1*DIGIT, so "00" is OK too.
+		return nil
+	}
 	message := grpcPercentDecode(bufferPool, trailer.Get(grpcHeaderMessage))
 	retErr := NewError(Code(code), errors.New(message))
 
@@ -664,8 +668,11 @@ func grpcErrorFromTrailer(bufferPool *bufferPool, protobuf Codec, trailer http.H
 		for _, d := range status.Details {
 			retErr.details = append(retErr.details, d)
 		}
-		// Prefer the Protobuf-encoded data to the headers (grpc-go does this too).
-		retErr.code = Code(status.Code)
+		// Prefer the Protobuf-encoded data to the headers (grpc-go does this too),
+		// but never turn an error into the OK code.
+		if status.Code != 0 {
+			retErr.code = Code(status.Code)
+		}
 		retErr.err = errors.New(status.Message)
 	}
 
